@@ -231,7 +231,8 @@ Section FindRoots.
   Definition find_roots_step (st : roots) (f : bytes) : roots :=
     if (match remote_goroot st with [] => false | _ => has_prefix f (remote_goroot st ++ s2b "/src/") end) then st else
     if has_src_prefix_in f (map fst (remote_gopaths st)) then st else
-    if has_prefix_in f (map fst (local_gomods st)) then st else
+    (* under a known module AND its directory already examined (gmc.seen): nothing left to discover *)
+    if has_prefix_in f (map fst (local_gomods st)) && existsb (beq (path_dir f)) (gm_cache st) then st else
     let parts := split_path f in
     let goroot_hit :=
       match remote_goroot st with
@@ -251,6 +252,9 @@ Section FindRoots.
             match gm with
             | Some (root, path) => mkRoots (remote_goroot st) (remote_gopaths st) (map_set (local_gomods st) root path) cache' (missing st)
             | None =>
+                (* no go.mod below the module root already found *)
+                if has_prefix_in f (map fst (local_gomods st))
+                then mkRoots (remote_goroot st) (remote_gopaths st) (local_gomods st) cache' (missing st) else
                 if is_file fs f
                 then mkRoots (remote_goroot st) (remote_gopaths st) (map_set (local_gomods st) (path_dir f) (s2b "main")) cache' (missing st)
                 else mkRoots (remote_goroot st) (remote_gopaths st) (local_gomods st) cache' (S (missing st))
